@@ -2,7 +2,7 @@
 //! virtual clock. `block_on` is the moral equivalent of `Runtime::new().block_on`.
 
 use std::future::Future;
-use std::pin::pin;
+use std::pin::{pin, Pin};
 use std::sync::atomic::{AtomicBool, Ordering};
 use std::sync::{Arc, Mutex};
 use std::task::{Context, Poll, Wake, Waker};
@@ -228,9 +228,13 @@ pub fn block_on<F: Future>(fut: F) -> End<F::Output> {
         if over {
             break End::StepBudget;
         }
+        let ran_tasks = run_async_tasks();
         if flag.0.load(Ordering::Relaxed) {
             // self-woken: other threads may or may not get to run in between
             yield_point();
+            continue;
+        }
+        if ran_tasks && with(|s| s.async_tasks.iter().any(|t| t.woken.0.load(Ordering::Relaxed))) {
             continue;
         }
         match progress_step() {
@@ -266,9 +270,11 @@ fn shutdown(clean: bool) {
             Some((t, false)) => drop(t),
         }
     }
-    with(|s| {
+    let tasks = with(|s| {
         s.timers.clear();
+        std::mem::take(&mut s.async_tasks)
     });
+    drop(tasks);
 }
 
 /// Register a timer; the waker is woken when virtual time reaches `at`.
@@ -334,4 +340,57 @@ impl std::fmt::Debug for TimerSlot {
     fn fmt(&self, f: &mut std::fmt::Formatter<'_>) -> std::fmt::Result {
         write!(f, "TimerSlot({:?})", self.armed_for)
     }
+}
+
+
+/// An async task (tokio::spawn): polled by the executor whenever it has been woken, in a
+/// drawn order relative to the other woken tasks. Dropped when the main future finishes, as
+/// tokio drops tasks at runtime shutdown.
+pub struct AsyncTask {
+    pub id: u64,
+    fut: Pin<Box<dyn Future<Output = ()>>>,
+    woken: Arc<FlagWaker>,
+}
+
+/// Spawn an async task. Must be called on the simulator thread.
+pub fn spawn_async(fut: Pin<Box<dyn Future<Output = ()>>>) -> u64 {
+    with(|s| {
+        let id = s.next_async_id;
+        s.next_async_id += 1;
+        s.event("spawn-async", id, 0);
+        s.async_tasks.push(AsyncTask { id, fut, woken: Arc::new(FlagWaker(AtomicBool::new(true))) });
+        id
+    })
+}
+
+/// Poll woken async tasks until none is woken. Returns true if any task was polled.
+fn run_async_tasks() -> bool {
+    let mut any = false;
+    loop {
+        // take one woken task out (never poll while the Sim is borrowed)
+        let task = with(|s| {
+            let woken: Vec<usize> = s.async_tasks.iter().enumerate().filter(|(_, t)| t.woken.0.load(Ordering::Relaxed)).map(|(i, _)| i).collect();
+            if woken.is_empty() || s.crashed {
+                return None;
+            }
+            let k = if woken.len() == 1 || s.sched.fifo { 0 } else { s.tape.draw(woken.len() as u32) as usize };
+            let t = s.async_tasks.remove(woken[k]);
+            s.sched_event("poll-async", t.id, k as u64);
+            Some(t)
+        });
+        let Some(mut t) = task else { break };
+        any = true;
+        t.woken.0.store(false, Ordering::Relaxed);
+        let waker = Waker::from(t.woken.clone());
+        let mut cx = Context::from_waker(&waker);
+        let done = match std::panic::catch_unwind(std::panic::AssertUnwindSafe(|| t.fut.as_mut().poll(&mut cx))) {
+            Ok(Poll::Ready(())) => true,
+            Ok(Poll::Pending) => false,
+            Err(_) => true, // the wrapper future stores the panic for the JoinHandle
+        };
+        if !done {
+            with(|s| s.async_tasks.push(t));
+        }
+    }
+    any
 }
